@@ -318,6 +318,36 @@ def part_join(ctx):
             ctx.fail(what, {'op': 'join', 'seed': seed, 'wild': wild}, detail=detail)
 
 
+def part_derived(ctx):
+    """renderer classes DERIVED from the default ones (own registry, inherited render_db): the database-level text must
+    be produced through the configured class, element by element"""
+    from pydbml.renderer.sql.default import DefaultSQLRenderer
+    for base, attr, kinds in ((DefaultSQLRenderer, 'sql', ['table', 'enum', 'reference']),
+                              (DefaultDBMLRenderer, 'dbml', ['table', 'enum', 'reference', 'group', 'sticky', 'project'])):
+        for kind in kinds:
+            D = type('Derived', (base,), {'model_renderers': dict(base.model_renderers)})
+            marker = f'<derived:{kind}>'
+            D.renderer_for(KIND_CLASS[kind])(lambda m, marker=marker: marker)
+            for route, mk in (('parser', lambda: PyDBML(SRC, **{attr + '_renderer': D})),):
+                try:
+                    db = mk()
+                    text = getattr(db, attr)
+                except Exception as e:  # noqa: BLE001
+                    ctx.fail(f'database with a renderer derived from the default {attr} renderer fails to render', {'op': 'derived', 'kind': kind, 'attr': attr}, exc=O.classify(e))
+                    continue
+                ctx.case(core.h(['derived', attr, kind, route]), True)
+                n_el = {'table': len(db.tables), 'enum': len(db.enums),
+                        # DBML writes an inline reference inside its column, through the same handler
+                        'reference': len(db.refs) if attr == 'dbml' else sum(1 for r in db.refs if not r.inline),
+                        'group': len(db.table_groups), 'sticky': len(db.sticky_notes), 'project': 1}[kind]
+                if text.count(marker) != n_el:
+                    ctx.fail(f'db.{attr} is not produced by the configured renderer class: the handler a derived class registers for '
+                             f'{kind} is used {text.count(marker)} times for {n_el} elements', {'op': 'derived', 'kind': kind, 'attr': attr}, text=text[:400])
+                el = elements(db)[kind]
+                if O.run(lambda: getattr(el, attr)) != ('ok', marker):
+                    ctx.fail(f'{kind}.{attr} of an attached element does not use the configured derived class', {'op': 'derived', 'kind': kind, 'attr': attr})
+
+
 def main(tier, seed):
     ctx = core.Ctx(PID, tier, seed, 'proof', THEOREMS, MODULES)
     ctx.build()
@@ -330,6 +360,7 @@ def main(tier, seed):
     try:
         part_dispatch(ctx, drv)
         part_join(ctx)
+        part_derived(ctx)
     finally:
         if drv is not None:
             drv.close()
